@@ -6,7 +6,7 @@ from mkprops import write
 IMP = """From Coq Require Import List Arith Bool NArith.
 From FFSM2 Require Import Model.TaskList Model.BitArray Model.BitStream Model.Plan Model.Ancestors Model.Machine
   Proofs.BitArrayProofs Proofs.MachineFrame Proofs.MachinePlan Proofs.MachineLife Proofs.GuardProofs Proofs.CycleProofs Proofs.PlanStep
-  Proofs.SerialProofs Proofs.LogProofs Proofs.MachineTop.
+  Proofs.SerialProofs Proofs.LogProofs Proofs.MachineTop Model.Multi Generated.InitFacts Proofs.ConstructProofs Proofs.LifeMonitor Proofs.ActivationRounds Proofs.IndexSafety.
 Import ListNotations."""
 
 VOC = ("Vocabulary: Ready cfg s a = the machine is at a point where requests are processed (or between API calls) with state a < n active, "
@@ -133,6 +133,65 @@ SPECS.update({
    ("C16_no_record_otherwise", "deliver_log_silent", ""),
    ("C16_action_records", "perform_log", "each permitted changeTo/changeWith emits exactly one transition record (caller, destination), each cancellation one cancellation record, each succeed/fail one task-status record; refused and other actions emit nothing"),
    ("C16_refused_is_silent", "perform_ignored_silent", ""),
+ ]),
+})
+
+SPECS.update({
+ "C17": ("C17 - Behaviour depends only on history; copies are equivalent. Theorems only. The model's run is a Coq function of (configuration, callbacks, API history), so determinism is by construction; what can break it in C++ is a member without initialiser or a member the hand-written copy constructor forgets. Generated/InitFacts.v lists exactly those, read off clang's AST of /repo's working tree on this run; core_over builds each field from its initialiser if it has one and from arbitrary prior memory contents g otherwise; copy_over copies a member if the constructor names it and default-initialises it otherwise. ", [
+   ("C17_construct_ignores_garbage", "construct_ignores_garbage", "a freshly constructed core is core_init whatever the storage held before"),
+   ("C17_construct_same_for_any_memory", "construct_same_for_any_memory", ""),
+   ("C17_copy_ctor_is_identity", "copy_ctor_is_identity", "a copy-constructed core equals the original (active state, request, previous transition, plan, logger)"),
+   ("C17_move_ctor_is_identity", "move_ctor_is_identity", ""),
+   ("C17_model_copy_is_the_copy_ctor", "copy_core_is_copy_ctor", ""),
+   ("C17_copy_behaves_like_original", "copy_behaves_like_original", "thereafter the copy responds to the same inputs with the same results"),
+   ("C17_instances_independent", "instances_independent", "operations on one instance leave every other instance untouched"),
+ ]),
+})
+
+INST = "fun P cfg orc (Hcfg : wf_cfg cfg) (Hwf : wf_oracle P cfg orc) => %s P cfg orc (PIc P cfg) (PIc_ok P cfg (proj1 (proj2 Hcfg))) Hwf%s"
+SPECS.update({
+ "C01": ("C01 - Exactly one active state; enter/exit strictly paired over the whole lifetime. Theorems only. "
+         "SInv s = between API calls: registry.requested is INVALID, the machine is inactive (active = INVALID) or has exactly one active state < n, the outstanding request (if any) names a state, the plan is well formed (PIc); "
+         "deliv w m a l = l are the events of ONE delivery of callback m to w while a is active: only callbacks of (w, m), each recipient (injected bases and the state itself, in C15 order) exactly once, every view reporting id_of w and isActive(k) = (k = a); "
+         "change a a' l = the lifecycle events of one call: none | exit(a);enter(a') | reenter(a) | root enter;enter(a') | exit(a);root exit; "
+         "life_shape a a' l = a change preceded by a quiet stretch (no enter/exit/reenter at all, every view shows a); life_chain a0 a l = the trace l is a concatenation of life_shapes from a0 to a; "
+         "mon = the executable lifecycle monitor of Proofs/LifeMonitor.v (an automaton over the states' own enter/exit/reenter callbacks that also checks every view's isActive bits).", [
+   ("C01_every_history", INST % ("run_life", " Hcfg"), "every API history from construction, every behaviour of the callbacks, every n <= 255, capacity, limit, activation mode, head or no head, payload type: the state between calls is well formed and the whole trace is a chain of lifecycle shapes"),
+   ("C01_monitor_accepts_every_history", "run_accepted", "the executable lifecycle monitor accepts the trace of every history and ends in the state matching activeStateId() (for configurations whose states define enter/exit/reenter, so that the lifecycle is observable)"),
+   ("C01_one_call", INST % ("step_spec", " Hcfg"), "one API call on any reachable state"),
+   ("C01_construct", INST % ("construct_spec", " Hcfg"), "construction activates an automatic machine (root enter, then the initial or redirected state) and leaves a manual one inactive"),
+   ("C01_destroy", INST % ("destroy_spec", ""), "destruction of an automatic machine exits the active state and then the root"),
+   ("C01_exit_pairs", INST % ("final_exit_spec", ""), "deactivation: exit(active) then exit(root), nothing else"),
+   ("C01_change_only_lifecycle", "change_only_life", "a lifecycle change runs enter/exit/reenter callbacks only"),
+   ("C01_after_enter_comes_exit_or_reenter", "accepted_after_enter", "in any accepted trace the next own lifecycle callback of a state after enter(k) is exit(k) or reenter(k)"),
+   ("C01_no_two_enters_without_exit", "accepted_enter_enter", ""),
+   ("C01_views_show_the_entered_state", "accepted_life_view", ""),
+ ]),
+})
+SPECS["C04"][1].extend([
+   ("C04_activation_rounds_le_limit", "initial_rounds_le_limit", "activation: at most SUBSTITUTION_LIMIT redirection rounds"),
+   ("C04_activation_exact", "initial_enter_rounds", "activation = one evaluation of the initial entry guards (verdict ignored), at most SUBSTITUTION_LIMIT rounds, then entry into the last survivor's destination or state 0"),
+   ("C04_activation_guard_evaluations", "initial_enter_guard_evals", "the number of root entry-guard evaluations during activation is one plus the rounds that reached their guards, at most 1 + SUBSTITUTION_LIMIT"),
+])
+SPECS.update({
+ "C18": ("C18 - No out-of-bounds access: the Coq part. The model reads with nth-with-default and writes with update functions that ignore an out-of-range index; every container operation has a checked twin in an option monad that fails on the first out-of-range index, is proved to compute the same result (erasure), and is proved to succeed under the container's invariant and the operation's precondition - so on in-contract histories every index the code computes is in range. Misalignment, indeterminate reads and allocation live in the C++ abstract machine and are decided by instrumented runs, not here. ", [
+   ("C18_tasklist_emplace", "emplace_c_safe", ""), ("C18_tasklist_remove", "remove_c_safe", ""),
+   ("C18_plan_append", "plan_append_c_safe", ""), ("C18_plan_append_with", "plan_append_with_c_safe", ""), ("C18_plan_remove", "plan_remove_c_safe", ""),
+   ("C18_plan_clear", "plan_clear_c_safe", ""), ("C18_plan_iterate", "plan_tasks_c_safe", ""), ("C18_plan_remove_while_iterating", "plan_remove_at_c_safe", ""),
+   ("C18_plan_first_last", "plan_first_last_c_safe", "first()/last() are in range on a non-empty plan (on an empty one they would read slot 255: an asserted precondition)"),
+   ("C18_bitarray_get", "ba_get_c_safe", ""), ("C18_bitarray_set", "ba_set_c_safe", ""), ("C18_bitarray_clear", "ba_clear_c_safe", ""), ("C18_bitarray_set_all", "ba_set_all_c_safe", ""),
+   ("C18_stream_write", "write_c_safe", ""), ("C18_stream_read", "read_c_safe", ""), ("C18_stream_cursor_no_wrap", "cursor_no_wrap", ""),
+   ("C18_static_array_get", "sa_get_c_safe", ""), ("C18_static_array_set", "sa_set_c_safe", ""), ("C18_dynamic_array_emplace", "da_emplace_c_safe", ""), ("C18_dynamic_array_iterate", "da_to_list_c_safe", ""),
+   ("C18_status_bits_of_actions", "perform_status_bits_safe", ""), ("C18_plan_task_ids_in_range", "plan_task_ids", ""),
+   ("C18_erasure_example_emplace", "emplace_c_erase", "the checked twin computes what the model computes"),
+   ("C18_erasure_example_plan_remove", "plan_remove_c_erase", ""),
+ ]),
+})
+
+SPECS.update({
+ "C19": ("C19 - Feature switches are orthogonal: the Coq part (non-interference of features a program does not use). with_log/with_plans/with_serial/with_history cfg x = the configuration with that switch set to x. 'Every combination compiles' and 'the shipped header equals the amalgamation' are decided by enumeration and byte comparison in the check, not here. ", [
+   ("C19_logging_does_not_interfere", "log_transparent_gen", "for every history and every pair of log modes: forgetting the logger's records, the run with a logger equals the run without"),
+   ("C19_log_mode_irrelevant_without_logger", "run_log_mode_irrelevant", "with no logger attached the compile-time log mode is unobservable"),
  ]),
 })
 
